@@ -374,6 +374,15 @@ func c06InvalidShares(run *mon.Run, r *rand.Rand, g *thrGroup) {
 				out, err := ins.ThresholdSignature()
 				run.Eval(1)
 				run.Count("invalid-share."+kind, 1)
+				// the verdict must be stable: a failed reconstruction never turns into a signature later
+				for rep2 := 0; rep2 < 2; rep2++ {
+					out2, err2 := ins.ThresholdSignature()
+					if (err2 == nil) != (err == nil) || !bytes.Equal(out2, out) {
+						run.Violate(fmt.Sprintf("C06:stateful-unstable-after-invalid-share:%s", kind),
+							fmt.Sprintf("ThresholdSignature after a %s share: first call (%x, %v), repeated call (%x, %v)", kind, []byte(out), err, []byte(out2), err2), rep)
+						break
+					}
+				}
 				if err == nil {
 					// The property: the object never returns a signature that fails verification. A
 					// torsion component can vanish under the Lagrange coefficient (L = 0 mod 3), in
